@@ -167,3 +167,17 @@ prop("C15", kind="c15", level="fault_enumeration", corpus=40,
      level_text="single-fault enumeration: for each of 40 corpus scenarios every allocation performed during the run is made to fail in turn (exhaustive for the corpus when the budget suffices; the evidence says whether it did); the daemon's real main() runs on the simulated kernel with the deterministic arena as the fault seam",
      technique="deterministic simulation with fault injection: exhaustive single-allocation-failure enumeration over a scenario corpus, arena allocator as the seam, ledger/model oracles, exact replay",
      nontrivial=[])
+
+prop("C20", kind="c20", level="fault_enumeration",
+     mix=[("c20", "default", 1), ("c20", "batch1", 1)],
+     quick_mix=[("c20", "default", 1)],
+     quick_s=40, thorough_s=600, quick_scenarios=500, thorough_scenarios=6000,
+     rule="seeded scenarios: credential files with plain, admin, read-only and password-less users (DES, MD5, SHA-256/512 hashes), 1-3 connections on raw/unix/WebSocket transports issuing authenticate (right, wrong, unknown user) and passwd "
+          "(own account, other account, unknown, read-only) requests, each change followed by authentications with the old and the new password; the reference model decides every response (who may change what; new password works, old does not). "
+          "For every password change of every scenario: (1) the credential file after every completed file-system call, three torn variants of every write to it, and the image a loss of power would leave (only fsync'ed data) are each given to a "
+          "FRESH daemon (second real main() with -p on that image) which must start and accept exactly the old or exactly the new credential set (exactly the new one once the change was acknowledged); (2) the scenario is re-run with that "
+          "file-system call failing with EIO, ENOSPC and, for writes, short counts of 1 byte, half and all-but-one: the request must be answered with success or error, later authentications must agree with that answer, and all images of that run are judged as in (1). "
+          "non-trivial: a distinct file image judged by a fresh daemon or a run in which the injected fault fired; a case is a (scenario, change, call, image-or-outcome) tuple",
+     level_text="fault enumeration per password change: every crash point between its file-system calls (plus torn writes and a power-loss view) and every error / short-write outcome of each call, each judged by starting a fresh real daemon on the resulting file; authorisation and effect decided by the reference model; exhaustive for the scenarios executed",
+     technique="deterministic simulation with fault injection: simulated file system with a durable view, crash-point and fault-outcome enumeration, fresh-daemon reload oracle, reference model for authorisation",
+     nontrivial=[])
